@@ -10,9 +10,9 @@ import (
 	ethtypes "github.com/ethereum/go-ethereum/core/types"
 	ethcrypto "github.com/ethereum/go-ethereum/crypto"
 	"github.com/meshplus/bitxhub-kit/types"
-	ethkittypes "github.com/meshplus/eth-kit/types"
 	"github.com/meshplus/bitxhub-model/constant"
 	"github.com/meshplus/bitxhub-model/pb"
+	ethkittypes "github.com/meshplus/eth-kit/types"
 )
 
 func sha(s string) []byte {
